@@ -1432,8 +1432,27 @@ func (e stepEngine) Preflight(st *Stats) (*Violation, interface{}) {
 		}
 	}
 	st.Probe("copy_grid_cells_enumerated")
+	// every construct that never ends on its own, entered through every route,
+	// with a buffered and an unbuffered channel: a panicking watchdog must end it
+	for si, shape := range infiniteShapes(txText(si0)) {
+		for _, entry := range []string{"run", "valuecall", "call", "eval"} {
+			for _, capn := range []int{1, 0} {
+				if (si+len(entry)+capn)%2 == 1 && curTier != "thorough" {
+					continue // quick: half of the (route, channel) combinations per construct
+				}
+				c := &StepCase{Engine: "stepsim", Mode: "seeded", ClassB: true, ChanCap: capn, Entry: entry, Body: "S.n++;\n" + shape + "\n",
+					Irqs: []Irq{{Step: 2, Kind: "noop"}, {Step: 30 + si, Kind: []string{"panic_error", "panic_string", "panic_ptr"}[si%3]}}}
+				if v, rc, _ := e.Exec(c, st); v != nil {
+					return v, rc
+				}
+			}
+		}
+	}
+	st.Probe("infinite_construct_grid_enumerated")
 	return nil, nil
 }
+
+const si0 = 0
 
 // execCopyGrid: one explicit case run on a Copy() (see Preflight).
 func execCopyGrid(c *StepCase, st *Stats) (*Violation, interface{}, bool) {
